@@ -292,11 +292,12 @@ class Gen:
                     dev.append({"ph": "X", "cat": "cuda_sync", "name": "Stream Sync", "pid": gpu_pid, "tid": s_, "ts": a, "dur": b - a,
                                 "args": {"cuda_sync_kind": "Stream Sync", "stream": s_, "correlation": e["args"]["correlation"], "External id": e["args"]["External id"]}})
         if rng.random() < p.p_gpu_annotation and dev:
-            s = rng.choice(streams)
-            a = rng.randint(0, T)
-            dev.append({"ph": "X", "cat": "gpu_user_annotation", "name": rng.choice(ANNOTATIONS), "pid": gpu_pid,
-                        "tid": s, "ts": a, "dur": rng.randint(1, max(1, T - a + 1)),
-                        "args": {"stream": s}})
+            for _ in range(rng.randint(1, 6)):
+                s = rng.choice(streams)
+                a = rng.randint(0, T)
+                dev.append({"ph": "X", "cat": "gpu_user_annotation", "name": rng.choice(ANNOTATIONS + ["step", "fwd", "bwd"]), "pid": gpu_pid,
+                            "tid": s, "ts": a, "dur": rng.randint(1, max(1, T - a + 1)),
+                            "args": {"stream": s}})
         for e in host:
             e.pop("_launch", None)
             e.pop("_sync", None)
@@ -433,3 +434,9 @@ _reg(Profile(name="queue", tmax_choices=(6, 8, 12, 20, 40), n_ranks=(1, 2), p_la
              p_orphan_kernel=0.2, p_kernel_zero=0.15, n_streams=(1, 3), p_zero_dur=0.1, max_children=5))
 _reg(Profile(name="queue_wide", tmax_choices=(110, 600, 5000), n_ranks=(1, 2), p_launch=0.7, p_mem_launch=0.4, n_streams=(1, 3), n_steps=(0, 3)))
 _reg(Profile(name="meta", n_steps=(0, 3), n_ranks=(2, 3), tmax_choices=(12, 24, 40, 110), p_launch=0.55, p_mem_launch=0.35, p_orphan_kernel=0.2, p_sync=0.2))
+_reg(Profile(name="kbreak", device="free", n_free_kernels=(3, 18), tmax_choices=(6, 10, 16, 30, 110), kernel_causal=False, p_launch=0.3, n_ranks=(1, 3),
+             p_kernel_zero=0.1, p_gpu_annotation=0.6))
+_reg(Profile(name="kbreak_fewnames", device="free", n_free_kernels=(4, 18), tmax_choices=(6, 10, 16, 30), kernel_causal=False, p_launch=0.2, n_ranks=(1, 2),
+             p_gpu_annotation=0.5,
+             kernel_names=("gemm_a", "gemm_b", "gemm_c", "relu", "ncclKernel_AllReduce", "ncclDevKernel_AllGather", "Memcpy DtoD (Device -> Device)",
+                           "Memset (Device)", "conv", "bn", "softmax", "ncclKernel_x")))
